@@ -45,8 +45,10 @@ func main() {
 	patterns := flag.String("patterns", "./pkg/...,./cmd/...", "packages to load")
 	prefix := flag.String("prefix", "", "comma-separated decision prefix to start from")
 	cpuprof := flag.String("cpuprofile", "", "write CPU profile")
+	memlimit := flag.Int("memlimit", 6144, "soft heap limit (MiB): the collector works harder instead of growing past it")
 	flag.Parse()
 	debug.SetGCPercent(1000)
+	debug.SetMemoryLimit(int64(*memlimit) << 20)
 	if *cpuprof != "" {
 		f, _ := os.Create(*cpuprof)
 		pprof.StartCPUProfile(f)
